@@ -181,6 +181,11 @@ func run(c *fw.Ctx, idx int) {
 			p.Allocations = []peer.ID{self, other}
 		case "everywhere":
 			p.ReplicationFactorMin, p.ReplicationFactorMax = -1, -1
+			// entries written by other versions or imported may still list peers: the
+			// factors say "everybody", so this peer holds it whoever is listed
+			if i%3 == 1 {
+				p.Allocations = []peer.ID{other}
+			}
 		case "remote":
 			p.ReplicationFactorMin, p.ReplicationFactorMax = 1, 1
 			p.Allocations = []peer.ID{other}
